@@ -83,10 +83,10 @@ func cmdCheck(args []string) {
 		repo = r
 	}
 	start := time.Now()
-	outDir := filepath.Join("/verif/out", prop)
+	outDir := filepath.Join(outRoot, prop)
 	os.RemoveAll(outDir)
 	os.MkdirAll(outDir, 0o755)
-	replayDir := filepath.Join("/verif/out/replay", prop)
+	replayDir := filepath.Join(outRoot, "replay", prop)
 	os.RemoveAll(replayDir)
 	os.MkdirAll(replayDir, 0o755)
 	evDir := "/verif/evidence"
